@@ -80,6 +80,8 @@ def tokenizer(name):
         elif name == "hs":
             import os
             d = os.environ.get("VERIF_HS_CACHE") or tempfile.mkdtemp(prefix="hs")
+            # (history: never the first Hyperscan tokenizer of the process)
+            HyperscanTokenizer(cache_dir=d, extractors=list(reversed(EXTRACTORS[-5:])) + EXTRACTORS[:40:8]).tokenize("Foo, supra, at 5; id. § 3.")
             _TOK[name] = HyperscanTokenizer(cache_dir=d)
     return _TOK[name]
 
@@ -103,6 +105,13 @@ def run_docs(payload):
     for item in payload["items"]:
         text, tk = item["text"], tokenizer(item["tok"])
         try:
+            if item.get("again"):
+                try:
+                    from eyecite import get_citations
+                    tk.tokenize(text)
+                    get_citations(text, tokenizer=tk)
+                except Exception:  # noqa: BLE001 - a raising call is judged under C04
+                    pass
             cands = abstract_cands(list(tk.extract_tokens(text)))
             words, ctoks = tk.tokenize(text)
             o = project(text, words, ctoks, Token)
